@@ -104,9 +104,14 @@ func H_C07_dotted() {
 	if len(p1) > 1 {
 		vAssume(isIdentTail(p1[1]))
 	}
-	idx := []string{"0", "1", "7"}[vChoose(3)]
+	idx := []string{"0", "1", "7", "00", "007", "010"}[vChoose(6)]
 	k := vStringN(1) + vString(1)
-	d := map[string]interface{}{"a": map[string]interface{}{k: []interface{}{vInt8(), vInt8()}, "zz": []interface{}{int8(3)}}}
+	// the numeric part indexes a list, or is the key of a map (where "7" and "007" are different keys)
+	var inner interface{} = []interface{}{vInt8(), vInt8()}
+	if vBool() {
+		inner = map[string]interface{}{"0": vInt8(), "00": vInt8(), "7": vInt8(), "007": vInt8(), "010": vInt8(), "10": vInt8(), "8": vInt8()}
+	}
+	d := map[string]interface{}{"a": map[string]interface{}{k: inner, "zz": []interface{}{int8(3)}}}
 	want := []string{"a", p1, idx}
 	spell := []string{
 		"a." + p1 + "." + idx,
@@ -150,6 +155,42 @@ func H_C07_dotted() {
 		} else {
 			vAssert(o == first, "all spellings give one outcome (dotted / bracket / pointer / mixed)")
 		}
+	}
+	vCover("reached")
+}
+
+// H_C07_collection: the quantified collection spelled three ways, over a map
+// whose key may contain '/', '~' or '.', under every binding mode: the
+// element paths built from the collection's path and the key must not depend
+// on how the collection was spelled.
+func H_C07_collection() {
+	k := vString(2)
+	for i := 0; i < len(k); i++ {
+		vAssume(isPtrByte(k[i]))
+	}
+	k2 := "x/y~z"
+	d := map[string]interface{}{"a": map[string]interface{}{"m": map[string]interface{}{k: vInt8(), k2: vInt8()}}}
+	if vBool() {
+		d = map[string]interface{}{"a": map[string]interface{}{"m": map[string]int8{k: vInt8(), k2: vInt8()}}}
+	}
+	coll := []string{`a.m`, `a["m"]`, `"/a/m"`, "a[`m`]"}
+	bind := []string{"as k, v { v == 1 }", "as _, v { v == 1 }", "as k { k == \"x/y~z\" }", "as k, v { v == 1 and k != \"zz\" }", "as k, _ { k matches \"^x\" }"}[vChoose(5)]
+	q := []string{"any ", "all "}[vChoose(2)]
+	var first int
+	for i, c := range coll {
+		o, _, _ := evalO(mustCreate(q+c+" "+bind), d)
+		if i == 0 {
+			first = o
+		} else {
+			vAssert(o == first, "the spelling of the quantified collection does not change the outcome: "+c)
+		}
+	}
+	// and the value binding really reaches the element: compare with the direct selector
+	if k == "b" {
+		direct, _, _ := evalO(mustCreate(`a.m.b == 1 or a.m["x/y~z"] == 1`), d)
+		viaAny, _, _ := evalO(mustCreate(`any "/a/m" as _, v { v == 1 }`), d)
+		vAssert(direct == viaAny, "value binding over a pointer-spelled collection reaches the elements")
+		vCover("direct")
 	}
 	vCover("reached")
 }
